@@ -2,14 +2,15 @@
 """Prints the markdown table of section 12.2 of DESIGN.md from seeded/*/meta.json."""
 import json, glob, os
 root = os.path.dirname(os.path.dirname(os.path.abspath(__file__)))
-print("| change | what it breaks / what it needs | first round | now |")
+print("| change | what it breaks / what it needs | first run | now |")
 print("|---|---|---|---|")
 for d in sorted(glob.glob(root + '/seeded/C*')):
     m = json.load(open(d + '/meta.json'))
     s = (m.get('summary') or '').replace('|', '/').replace('\n', ' ')
     if len(s) > 230: s = s[:227] + '…'
     runs = m.get('checks_run') or []
-    first = [r for r in runs if r['round'] == 1]
+    r0 = min([r['round'] for r in runs], default=1)
+    first = [r for r in runs if r['round'] == r0]
     fr = ', '.join(f"{r['check']}: {r['result'].lower()}" for r in first)
     later = sorted(set(f"{r['check']}" for r in runs if r['result'] == 'DETECTED'))
     missed = sorted(set(r['check'] for r in runs if r['result'] == 'MISSED') - set(later))
